@@ -146,10 +146,6 @@ class ParallelMovPattern(RewritePattern):
                     break
                 dst_type = src.type
 
-            # if dst is a register that has no input, we can use it as a free register.
-            if dst_type not in src_by_dst_type:
-                free_registers[type(dst_type)].append(dst_type)
-
         # If we have a cycle in the graph, all trees pointing into the cycle cannot
         # enter the cycle because it will have an unprocessed node from its previous
         # node in the cycle.
